@@ -64,10 +64,10 @@ DEGREE_GUARDS = {
 }
 
 PROP_GROUPS = {
-    'C01': (['elementary', 'helpers'], ('O3', 'O4', 'CTRL', 'RESHAPE')),
-    'C02': (['arith'], ('O3', 'O4', 'CTRL', 'RESHAPE')),
-    'C07': (['linalg', 'det'], ('O3', 'O4', 'CTRL', 'RESHAPE')),
-    'C08': (['factor'], ('O3', 'O4', 'CTRL', 'RESHAPE')),
+    'C01': (['elementary', 'helpers'], ('O3', 'O4', 'O5', 'CTRL', 'RESHAPE')),
+    'C02': (['arith'], ('O3', 'O4', 'O5', 'CTRL', 'RESHAPE')),
+    'C07': (['linalg', 'det'], ('O3', 'O4', 'O5', 'CTRL', 'RESHAPE')),
+    'C08': (['factor'], ('O3', 'O4', 'O5', 'CTRL', 'RESHAPE')),
     'C12': (['elementary', 'helpers', 'arith', 'linalg', 'factor', 'maps'], ('O1', 'O2', 'C12.D', 'CTRL')),
     'C13': (['maps'], ('O1', 'O3')),
 }
@@ -187,6 +187,165 @@ def _delegates(m, fi, ka, have, depth=0):
     return found
 
 
+ACCUMULATE_BY_CONTRACT = {
+    '_amul': 'z += x*y (docstring): the accumulate-multiply used by the pullbacks',
+    '_iouter': 'in-place outer-product accumulation',
+}
+ZERO_ALLOCS = {'zeros', 'zeros_like', '__zeros__', '__zeros_like__'}
+DIRTY_ALLOCS = {'empty', 'empty_like'}
+
+
+def _buffer_origins(ctx, fi, param, depth=0, seen=None):
+    """Where can the array bound to parameter `param` of fi come from?  Follows every call site in the analysed modules
+    (E1 argument values) back to an allocation or to a parameter of a public function.
+    -> list of (kind, text) with kind in 'zero' (allocated with zeros), 'dirty' (numpy.empty*), 'user' (an argument a user
+    passes to a public function), 'other'"""
+    eff = ctx.effects
+    seen = seen if seen is not None else set()
+    if (fi, param) in seen or depth > 6:
+        return []
+    seen.add((fi, param))
+    eff.param_bindings(fi, param)       # builds the call-site map
+    sites = eff._pbind.get((fi, param), [])
+    out = []
+    for caller, expr in sites:
+        if expr is None:
+            out.append(('other', '%s: *args call' % caller.qualname))
+            continue
+        # the call node: find it to read the E1 value of the argument
+        av = None
+        for cid, (cnode, args, kws) in eff.sums[caller].callargs.items():
+            for a_node, a_av in list(zip(cnode.args, args)) + [(k.value, kws.get(k.arg)) for k in cnode.keywords if k.arg]:
+                if a_node is expr:
+                    av = a_av
+        if av is None:
+            out.append(('other', '%s: `%s`' % (caller.qualname, norm(expr)[:40])))
+            continue
+        from .effects import flat
+        for root in sorted(flat(av)):
+            if root[0] == 'p':
+                q = root[1]
+                if q in ('self', 'cls'):
+                    continue
+                public = not caller.name.startswith('_') or (caller.name.startswith('__') and caller.name.endswith('__'))
+                if public:
+                    out.append(('user', '%s(%s=...)' % (caller.qualname, q)))
+                else:
+                    sub = _buffer_origins(ctx, caller, q, depth + 1, seen)
+                    out.extend(sub)
+            elif root[0] == 'fresh':
+                kinds = set()
+                for n in ast.walk(caller.node):
+                    if isinstance(n, ast.Call) and getattr(n, 'lineno', None) == root[1]:
+                        d = dotted_name(n.func) or ''
+                        last = d.split('.')[-1]
+                        if last in ZERO_ALLOCS:
+                            kinds.add('zero')
+                        elif last in DIRTY_ALLOCS:
+                            kinds.add('dirty')
+                if 'zero' in kinds and 'dirty' not in kinds and _buffer_reused(caller, root[1], expr):
+                    kinds = {'dirty'}
+                if 'dirty' in kinds:
+                    out.append(('dirty', '%s line %d (numpy.empty, or a work buffer that is written more than once)' % (caller.qualname, root[1])))
+                elif 'zero' in kinds:
+                    out.append(('zero', '%s line %d' % (caller.qualname, root[1])))
+                else:
+                    out.append(('other', '%s line %d' % (caller.qualname, root[1])))
+    return out
+
+
+def _buffer_reused(caller, alloc_line, arg_expr):
+    """a zero-allocated local that is passed to the kernel is still all-zero only if nothing else writes it: True when the
+    name bound at `alloc_line` is written (store target, augmented assignment, out= / positional output of another call)
+    anywhere else in the caller, or when the call sits in a loop the allocation is outside of"""
+    names = set()
+    for st in walk_no_nested(caller.node):
+        if isinstance(st, ast.Assign) and st.lineno <= alloc_line <= getattr(st, 'end_lineno', st.lineno):
+            for t in st.targets:
+                for n in ast.walk(t):
+                    if isinstance(n, ast.Name):
+                        names.add(n.id)
+    used = {n.id for n in ast.walk(arg_expr) if isinstance(n, ast.Name)} & names
+    if not used:
+        return False        # allocated inline in the call
+    writes = 0
+    for st in walk_no_nested(caller.node):
+        if isinstance(st, (ast.Assign, ast.AugAssign)):
+            tg = st.targets if isinstance(st, ast.Assign) else [st.target]
+            for t in tg:
+                if isinstance(t, (ast.Subscript, ast.Attribute)) or isinstance(st, ast.AugAssign):
+                    b = t
+                    while isinstance(b, (ast.Subscript, ast.Attribute)):
+                        b = b.value
+                    if isinstance(b, ast.Name) and b.id in used:
+                        writes += 1
+        if isinstance(st, ast.Call):
+            for k in st.keywords:
+                if k.arg in ('out', 'work') and ({n.id for n in ast.walk(k.value) if isinstance(n, ast.Name)} & used):
+                    writes += 1
+            for a in st.args[1:]:
+                # positional output convention of the kernels: (inputs..., out)
+                if st.args and a is st.args[-1] and isinstance(st.func, ast.Attribute) and st.func.attr.startswith('_') \
+                        and ({n.id for n in ast.walk(a) if isinstance(n, ast.Name)} & used):
+                    writes += 1
+    if writes > 1:
+        return True
+    # allocation outside a loop that contains the call
+    for lp in walk_no_nested(caller.node):
+        if isinstance(lp, (ast.For, ast.While)) and any(n is arg_expr for n in ast.walk(lp)) \
+                and not (lp.lineno <= alloc_line <= getattr(lp, 'end_lineno', lp.lineno)):
+            return True
+    return False
+
+
+def _o5_verdict(ctx, ka, issue):
+    """-> ('violation', text) | ('ok', text) | ('note', text) for an accumulate-before-define finding"""
+    fi = ka.fi
+    if fi.name in ACCUMULATE_BY_CONTRACT:
+        return 'ok', '%s accumulates by contract: %s' % (fi.qualname, ACCUMULATE_BY_CONTRACT[fi.name])
+    name = (issue.witness or {}).get('array')
+    eff = ctx.effects
+    st = issue.node
+    roots = None
+    sm = eff.sums.get(fi)
+    if sm is not None:
+        for ev in sm.events:
+            if ev.node is st or (getattr(ev.node, 'lineno', None) == getattr(st, 'lineno', -1) and norm(ev.node) == norm(st)):
+                roots = set(ev.roots) if roots is None else roots | set(ev.roots)
+    if not roots:
+        return 'note', '%s accumulates into `%s` before defining it; the storage written could not be traced (E1)' % (fi.qualname, name)
+    bad, zero, other, nsites = [], 0, [], 0
+    for root in sorted(roots):
+        if root[0] == 'fresh':
+            kinds = set()
+            for n in ast.walk(fi.node):
+                if isinstance(n, ast.Call) and getattr(n, 'lineno', None) == root[1]:
+                    last = (dotted_name(n.func) or '').split('.')[-1]
+                    if last in DIRTY_ALLOCS:
+                        kinds.add('dirty')
+                    elif last in ZERO_ALLOCS:
+                        kinds.add('zero')
+            if 'dirty' in kinds:
+                bad.append('numpy.empty allocation at line %d' % root[1])
+            else:
+                zero += 1       # zeros, or a value computed/copied from data (defined contents)
+        elif root[0] == 'p' and root[1] not in ('self', 'cls'):
+            public = not fi.name.startswith('_') or (fi.name.startswith('__') and fi.name.endswith('__'))
+            if public:
+                bad.append('the argument `%s` a user passes to %s' % (root[1], fi.qualname))
+                continue
+            origins = _buffer_origins(ctx, fi, root[1])
+            nsites += len(origins)
+            bad.extend(t for k, t in origins if k in ('user', 'dirty'))
+            other.extend(t for k, t in origins if k == 'other')
+            zero += sum(1 for k, _ in origins if k == 'zero')
+    if bad:
+        return 'violation', 'the buffer can be non-zero on entry: %s' % '; '.join(sorted(set(bad))[:3])
+    if other:
+        return 'note', '%s accumulates into `%s` before defining it; origins of the buffer not all resolved: %s' % (fi.qualname, name, sorted(set(other))[:3])
+    return 'ok', '%s accumulates into `%s` relying on zero-initialised storage: every origin (%d allocation/call sites) provides zeros or defined data' % (fi.qualname, name, zero)
+
+
 def _existence_guard(ka, st):
     """`if D > c:` (also `D >= c+1`, `c < D`) with no else-branch whose body touches graded arrays at constant coefficient
     indices only, the largest being c: the guard says exactly that this coefficient exists, so lower orders cannot
@@ -275,6 +434,15 @@ def rule_grade(prop):
             mine = [i for i in ka.issues if i.ob in obs]
             others = [i for i in ka.issues if i.ob not in obs]
             for i in mine:
+                if i.ob == 'O5':
+                    verdict, text = _o5_verdict(ctx, ka, i)
+                    if verdict == 'ok':
+                        r.ok(construct=fi.fq + ':O5', nontrivial=True, sample=text)
+                        continue
+                    if verdict == 'note':
+                        r.note(text)
+                        continue
+                    i.msg = i.msg + ' - ' + text
                 r.bad(Finding('%s.%s' % (prop, i.ob), fi.fq, norm(i.node)[:160] if isinstance(i.node, ast.AST) else str(i.node),
                               '[%s] %s: %s' % (i.ob, fi.qualname, i.msg), fi.file, getattr(i.node, 'lineno', fi.lineno),
                               extra={'witness': {k: str(v) for k, v in (i.witness or {}).items()}}))
